@@ -68,6 +68,7 @@ class Harness:
         # force-platform data channels are unsigned 16-bit: in every third history the channel numbers
         # sit at the top of that range
         self.chan_base = 65533 if (kind == "FPData" and seed % 3 == 2) else 0
+        self.nops = {}            # slot -> changes made to the block in it since its construction
         self.share_ctor = False   # directed histories: always hand the previous constructor's list over again
         self.skew = (seed // 4) % 2 == 1
         self.frames = {}      # slot -> frame count of the block now in it
@@ -350,6 +351,10 @@ class Harness:
         op = lab["op"]
         i = lab["i"]
         b = self.inst[i]
+        if op == "construct":
+            self.nops[i] = 0
+        elif op not in ("lookup", "encode", "decode", "poke", "assign_from"):
+            self.nops[i] = self.nops.get(i, 0) + 1
         o = dict(op=op, i=i)
         val = []
         fn = None
@@ -414,7 +419,12 @@ class Harness:
                 o["key"] = lab["key"]
                 fn = lambda: b.remove_platform(lab["key"])  # noqa: E731
             else:
-                target = items[lab["pos"] - 1] if 0 < lab["pos"] <= len(items) else self.new_item(1)
+                # (decided by the number of changes made to THIS block since its construction, so that
+                # the solo replay of the block's own history makes the same decision)
+                if self.nops.get(i, 0) % 5 == 0:
+                    target = self.new_item(1)      # an item the block does not hold: nothing may change
+                else:
+                    target = items[lab["pos"] - 1] if 0 < lab["pos"] <= len(items) else self.new_item(1)
                 o["key"] = self.ident(target)
                 if self.kind in ("Optical", "Events"):
                     # (by identity: list.remove would take the first EQUAL element, and two events
@@ -511,8 +521,10 @@ class Harness:
                 if k == "EMG":
                     it.data[0] = newv
                 elif k == "Data3D":
-                    if self.tagc % 2:
+                    if self.tagc % 3 == 1:
                         it.data[0, 0] = newv
+                    elif self.tagc % 3 == 2:
+                        it.Y[0] = newv              # through the view the coordinate getter hands out
                     else:
                         it.X = np.full(len(it.data), newv, dtype="<f4")
                 elif k == "Force":
@@ -842,9 +854,9 @@ def run_tour(kind, labs, seed, share_ctor=False):
         if h.nf == 0 and c["op"] in ("encode", "decode", "aux") and kind in ("EMG", "Data3D", "Force", "FPData"):
             continue  # tracks without frames cannot be encoded; such histories only exercise the editing API
         ev = h.run(c)
+        done.append(c)              # (also when it was skipped: the solo replay must skip it the same way)
         if ev is not None:          # (a call that makes no sense on this concrete block is skipped)
             steps.append(ev)
-            done.append(c)
     steps += solo_replays(kind, done, seed, h)
     return dict(kind="EMG0" if (kind == "EMG" and h.nf == 0) else kind, init=init, steps=steps,
                 meta=dict(labels=labs, seed=seed, kind=model, share_ctor=share_ctor))
